@@ -5,6 +5,7 @@ package main
 import (
 	"encoding/json"
 	"fmt"
+	"golang.org/x/tools/go/ssa"
 	"os"
 	"path/filepath"
 	"sort"
@@ -79,6 +80,17 @@ func (c *Check) floor(rule string, got, min int, what string) {
 	} else {
 		c.ok(rule, "", "instance-floor", "-", fmt.Sprintf("%s: %d instances (floor %d)", what, got, min))
 	}
+}
+
+// sig checks the parameter count (receiver included) a rule was written for;
+// a different signature means the rule cannot be evaluated, which is reported
+// rather than skipped (a rule that silently matches nothing passes for ever).
+func (c *Check) sig(rule string, fn *ssa.Function, n int) bool {
+	if len(fn.Params) == n {
+		return true
+	}
+	c.undecided(rule, c.P.Name(fn), "signature", c.P.Pos(fn.Pos()), fmt.Sprintf("the rule expects %d parameters (receiver included), the function has %d", n, len(fn.Params)))
+	return false
 }
 
 // anchors turns unresolved anchors into undecided obligations.
